@@ -17,6 +17,7 @@ from ufl.constantvalue import Zero
 from ufl.core.multiindex import FixedIndex, Index, MultiIndex
 from ufl.differentiation import Grad
 from ufl.utils.stacks import Stack, StackDict
+from ufl.variable import Variable
 
 
 class IndexExpander(ReuseTransformer):
@@ -33,6 +34,23 @@ class IndexExpander(ReuseTransformer):
         if self._components:
             return self._components.peek()
         return ()
+
+    def variable(self, x):
+        """Apply to variable.
+
+        The expansion of the expression a variable represents depends on
+        the current component and on the values of the free indices, so
+        the transformed variable can only be reused for the same context
+        (the label alone is not a valid cache key here).
+        """
+        e, l = x.ufl_operands  # noqa: E741
+        key = (l, self.component(), tuple(sorted((i.count(), v) for i, v in self._index2value.items())))
+        v = self._variable_cache.get(key)
+        if v is None:
+            e2 = self.visit(e)
+            v = x if e == e2 else Variable(e2, l)
+            self._variable_cache[key] = v
+        return v
 
     def terminal(self, x):
         """Apply to terminal."""
